@@ -316,8 +316,14 @@ def c08c(chk, g):
                     d_ = f.single_def(f.copy_root(l_)) if l_ is not None else None
                     sub = d_[3]["variant"] if d_ and d_[0] == "assign" and d_[3]["k"] == "aggregate" else None
                 outs.append("%s%s" % (rv["variant"], "(%s)" % sub if sub else ""))
-        chk.ob("C08.b", "genotype::From/absent-call->Missing", outs == ["Skipped(Missing)"], f.loc(outer[0]),
-               "when the sample has no call at all the only outcome is Skipped(Missing) (outcomes built on the None edge: %s)" % (outs or "none"))
+        # (an outcome returned as a named constant - `const MISSING: genotype::Result = ..; return MISSING;` - is not evaluated by the
+        # extractor: nothing is concluded then)
+        unknown = [b for b, i_, p_, rv_, s_ in f.assigns() if b in absent and b not in an.arm_region(f, outer[0], outer[1]) and p_[0] == 0 and not p_[1]
+                   and rv_["k"] == "use" and rv_["op"]["k"] == "const" and "genotype::Result" in (rv_["op"].get("ty") or "")]
+        ok_abs = outs == ["Skipped(Missing)"] or (not outs and bool(unknown))
+        chk.ob("C08.b", "genotype::From/absent-call->Missing", ok_abs, f.loc(outer[0]),
+               "when the sample has no call at all the only outcome is Skipped(Missing) (outcomes built on the None edge: %s%s)"
+               % (outs or "none", "; returned as an unevaluated constant: not concluded" if (not outs and unknown) else ""))
     below = an.arm_region(f, outer[0], outer[1])
     other = [(rv["variant"], f.loc(b)) for b, rv in g.aggregates() if b in below and rv["variant"] != "Error" and not an.dominated_by_edge(f, sb, t_dip, b)]
     chk.ob("C08.c", "genotype::From/non-diploid-yields-only-Error", not other, f.loc(sb),
